@@ -36,3 +36,38 @@ pub fn bad_exact(numer: i128, denom: i128, truncated: i64) -> i64 {
 pub fn good_exact(sign: i8, small: i32) -> f64 {
     (sign as f64) * (small as f64)
 }
+
+/// A miniature week date for the YEAR-FACT controls.
+#[derive(Clone, Copy)]
+pub struct WeekDate {
+    y: i16,
+    w: i8,
+}
+
+impl WeekDate {
+    pub fn new(y: i16, w: i8) -> Option<WeekDate> {
+        if w < 1 || w > 53 { None } else { Some(WeekDate { y, w }) }
+    }
+    pub fn year(self) -> i16 {
+        self.y
+    }
+    pub fn week(self) -> i8 {
+        self.w
+    }
+    pub fn weeks_in_year(self) -> i8 {
+        if self.y % 5 == 0 { 53 } else { 52 }
+    }
+}
+
+/// YEAR-FACT: must be reported (the week count of this year is paired with
+/// the previous year).
+pub fn bad_year_fact(d: WeekDate) -> Option<WeekDate> {
+    WeekDate::new(d.year() - 1, d.weeks_in_year())
+}
+
+/// YEAR-FACT: must be accepted (the fact is read from a date of the year it
+/// is paired with).
+pub fn good_year_fact(d: WeekDate) -> Option<WeekDate> {
+    let p = WeekDate::new(d.year() - 1, 1)?;
+    WeekDate::new(p.year(), p.weeks_in_year())
+}
